@@ -70,10 +70,25 @@ Record happ := mkHapp {
   h_hasmetric : bool;
   h_use : Z }.
 
+(* Quantity.MilliValue() of a quantity given in micro-CPU: rounded away from zero *)
+Definition milli_of_micro (u : Z) : Z := if 0 <=? u then ceil_div u 1000 else - ceil_div (- u) 1000.
+
+Definition dedup_len (l : list Z) : Z := lenZ (nodup Z.eq_dec l).
+
+(* the node reservation annotation (node.koordinator.sh/reservation) as the code reads it *)
+Record nodeanno := mkAnno {
+  an_state : Z;          (* 0 node.Annotations == nil, 1 no reservation entry (absent or ""),
+                            2 an entry that does not unmarshal into a NodeReservation, 3 a JSON object *)
+  an_policy : Z;         (* applyPolicy: 0 unset, 1 Default, 2 ReservedCPUsOnly, 3 any other string *)
+  an_rescpu : option Z;  (* resources.cpu in micro-CPU; None = no cpu entry *)
+  an_cpus_ok : bool;     (* reservedCPUs is a parseable cpu list *)
+  an_cpus : list Z }.    (* reservedCPUs expanded in written order (repeats allowed); [] = absent or "" *)
+Definition anno_none : nodeanno := mkAnno 0 0 None true [].
+
 Record binput := mkB {
   b_cap : Z;            (* node.Status.Capacity cpu, milli *)
-  b_alloc : Z;          (* node.Status.Allocatable cpu, milli *)
-  b_anno : Z;           (* cpu reserved by the node annotation, milli (0 = none) *)
+  b_alloc : option Z;   (* node.Status.Allocatable cpu, milli; None = no cpu entry *)
+  b_anno : nodeanno;    (* the node reservation annotation *)
   b_thr : Z;            (* CPUSuppressThresholdPercent *)
   b_min : option Z;     (* CPUSuppressMinPercent *)
   b_node : Z;           (* node usage, 1/64 cores *)
@@ -93,8 +108,35 @@ Definition hosts_all (hs : list happ) : Z := sumZ (map h_use (filter h_hasmetric
 Definition hosts_nonbe (hs : list happ) : Z :=
   sumZ (map h_use (filter (fun h => h_hasmetric h && happ_nonbe h) hs)).
 
-(* helpers.GetNodeResourceReserved: max(max(capacity - allocatable, 0), annotation) *)
-Definition node_reserved (i : binput) : Z := Z.max (Z.max (b_cap i - b_alloc i) 0) (b_anno i).
+(* util.GetNodeReservationFromKubelet: max(capacity - allocatable, 0) on the cpu entry; a missing
+   allocatable entry leaves the capacity *)
+Definition kube_reserved (i : binput) : Z :=
+  Z.max (match b_alloc i with Some a => b_cap i - a | None => b_cap i end) 0.
+
+(* util.GetNodeReservationResources: the resource list's cpu entry.  None = error (reservedCPUs does
+   not parse), Some None = a list without cpu entry.  reservedCPUs, when given, overrides
+   resources.cpu with the number of distinct cpus it lists. *)
+Definition anno_resources (a : nodeanno) : option (option Z) :=
+  match an_cpus a with
+  | [] => Some (option_map milli_of_micro (an_rescpu a))
+  | _ => if an_cpus_ok a then Some (Some (1000 * dedup_len (an_cpus a))) else None
+  end.
+
+(* util.GetNodeReservationFromAnnotation: the cpu entry of the returned list (None = nil list or no
+   cpu entry).  applyPolicy is not consulted: it only tells the scheduler how to account. *)
+Definition anno_reserved (a : nodeanno) : option Z :=
+  if an_state a =? 3 then
+    match anno_resources a with Some r => r | None => None end
+  else None.
+
+(* quotav1.Max on the cpu key: the left list always has the entry *)
+Definition max_entry (k : Z) (o : option Z) : Z :=
+  match o with Some v => if k <=? v then v else k | None => k end.
+
+(* helpers.GetNodeResourceReserved: max(kubelet reservation, annotation reservation) *)
+Definition node_reserved (i : binput) : Z :=
+  if an_state (b_anno i) =? 0 then kube_reserved i
+  else max_entry (kube_reserved i) (anno_reserved (b_anno i)).
 
 (* systemUsed before the reservation floor, 1/64 cores *)
 Definition sys_raw (i : binput) : Z :=
@@ -273,8 +315,6 @@ Definition target_count (budget_milli oldn nprocs : Z) : Z :=
   let c := ceil_div budget_milli 1000 in
   let c := if c <? beMinCPUSetCores then beMinCPUSetCores else c in
   if max_increase nprocs <? c - oldn then oldn + max_increase nprocs else c.
-
-Definition dedup_len (l : list Z) : Z := lenZ (nodup Z.eq_dec l).
 
 (* the list handed to applyBESuppressCPUSet; None = returned before (no eligible cpu) *)
 Definition be_cpuset (i : ainput) : option (list Z) :=
